@@ -155,6 +155,11 @@ def run_timeout(wk, scenario, timeout=2):
         before = 1 if scenario == "healthy" else 20
         s = rp.Server(wk, workers=nworkers, threads=2 if wk == "gthread" else None, config="timeout = %d\n" % before,
                       args=["--graceful-timeout", "2"], name="c11")
+    elif scenario == "healthy_full":
+        # every connection slot of a threaded worker is taken by clients that are slow, not by a hung worker
+        nworkers = 1
+        s = rp.Server(wk, workers=1, threads=1, args=["--timeout", str(timeout), "--graceful-timeout", "2", "--worker-connections", "2",
+                                                       "--keep-alive", str(timeout * 4)], name="c11")
     else:
         s = rp.Server(wk, workers=nworkers, threads=2 if wk == "gthread" else None,
                       args=["--timeout", str(timeout), "--graceful-timeout", "2"] +
@@ -212,6 +217,17 @@ def run_timeout(wk, scenario, timeout=2):
             return tr, {"wk": wk, "scenario": scenario, "requests": n, "failed": fails}
         # hang -> ABRT at most timeout + 1 s (master loop) later; ignored ABRT -> KILL one more loop (1 s) later
         bound = timeout * 1000 + 1000 + (1000 if scenario.startswith("ignore") else 0) + 1000 + slack
+        if scenario == "healthy_full":
+            a = s.connect(timeout=timeout * 6)
+            st, body, info = s.get("/pid", sock=a, keepalive=True)
+            b = s.connect(timeout=timeout * 6)       # connected, silent
+            time.sleep(timeout * 2.2)
+            alive = [p for p in initial if rp.proc_state(p) not in (None, "Z")]
+            ev.append({"e": "healthy", "killed": len(initial) - len(alive)})
+            a.close()
+            b.close()
+            tr = {"scenario": scenario, "wk": wk, "timeout_ms": timeout * 1000, "bound_ms": 0, "min_ms": 0, "ev": ev}
+            return tr, {"wk": wk, "scenario": scenario, "requests": 1, "log": s.errlog()[-300:]}
         if scenario == "healthy_busy":
             # several clients keep the listen queue non-empty for longer than the timeout with short requests
             stop_at = time.time() + timeout * 2.6
@@ -331,12 +347,12 @@ def run_timeout(wk, scenario, timeout=2):
 
 def timeout_side(ctx):
     plan = [("sync", "hang"), ("gthread", "stop"), ("sync", "healthy"), ("gevent", "healthy"), ("sync", "healthy2"),
-            ("sync", "healthy_busy"), ("sync", "stop_busymaster"), ("sync", "hup_hang"), ("sync", "hup_healthy")] if ctx.quick else \
+            ("sync", "healthy_busy"), ("sync", "stop_busymaster"), ("sync", "hup_hang"), ("sync", "hup_healthy"), ("gthread", "healthy_full")] if ctx.quick else \
         [(wk, sc) for wk in ("sync", "gthread", "gevent", "eventlet") for sc in ("hang", "stop", "ignore", "healthy")] + \
         [("sync", "healthy2"), ("gthread", "healthy2"), ("sync", "healthy_busy"), ("gthread", "healthy_busy"),
          ("sync", "stop_busymaster"), ("gevent", "stop_busymaster"), ("sync", "hang_busymaster"),
-         ("sync", "hup_hang"), ("sync", "hup_healthy"), ("gthread", "hup_stop"), ("gevent", "hup_healthy")]
-    results = _parallel(plan, lambda a, i: run_timeout(a[0], a[1]), par=9)
+         ("sync", "hup_hang"), ("sync", "hup_healthy"), ("gthread", "hup_stop"), ("gevent", "hup_healthy"), ("gthread", "healthy_full")]
+    results = _parallel(plan, lambda a, i: run_timeout(a[0], a[1]), par=10)
     traces = [r[0] for r in results]
     metas = [r[1] for r in results]
     verdicts, stats = tlc.validate_batch("TimeoutTrace", "TimeoutTrace.cfg", traces, name="TimeoutTrace_C11")
